@@ -102,6 +102,8 @@ type Instance struct {
 	silSnap   []byte // snapshot taken by the last maintenance run
 	nflogSnap []byte
 
+	dead chan struct{} // closed when the process (instance) stops
+
 	// cluster mode (nil / zero in single-instance scenarios)
 	position  func() int // this instance's view of its position among the peers
 	clustered bool
@@ -187,6 +189,16 @@ func (n *scripted) Notify(ctx context.Context, alerts ...*alert.Alert) (bool, er
 		case <-ctx.Done():
 			at.Outcome, retry, err = "ctx", true, ctx.Err()
 		}
+	case "slowx":
+		// a receiver that does not abort on cancellation: the request completes (successfully) after D
+		// seconds even if the flush context has ended meanwhile (e.g. an SMTP exchange in progress)
+		select {
+		case <-time.After(time.Duration(b.D) * time.Second):
+			at.Outcome = "ok"
+		case <-n.inst.dead:
+			// the process was stopped or killed: the request dies with it
+			at.Outcome, retry, err = "killed", true, errors.New("process stopped")
+		}
 	case "hang":
 		<-ctx.Done()
 		at.Outcome, retry, err = "ctx", true, ctx.Err()
@@ -212,7 +224,7 @@ func (s *Sim) newInstance(idx, epoch int, spec *Config, silSnap, nflogSnap []byt
 }
 
 func (s *Sim) newInstanceWith(idx, epoch int, spec *Config, silSnap, nflogSnap []byte, prepare func(*Instance)) (*Instance, error) {
-	in := &Instance{sim: s, idx: idx, epoch: epoch, reg: prometheus.NewRegistry(), startTime: time.Now(), stopc: make(chan struct{})}
+	in := &Instance{sim: s, idx: idx, epoch: epoch, reg: prometheus.NewRegistry(), startTime: time.Now(), stopc: make(chan struct{}), dead: make(chan struct{})}
 	if prepare != nil {
 		prepare(in)
 	}
@@ -375,6 +387,7 @@ func (in *Instance) reload(spec *Config) error {
 
 // stop shuts everything down; clean=true takes the shutdown snapshots.
 func (in *Instance) stop(clean bool) (silSnap, nflogSnap []byte) {
+	close(in.dead)
 	if in.inh != nil {
 		in.inh.Stop()
 	}
